@@ -51,12 +51,14 @@ def run(res, replay=None):
 
     plans = [("gen", None, 160 if q else 4000, 40 if q else 400, None), ("big", "big", 40 if q else 1500, 40 if q else 300, None),
              # a full table, one caller swapping a member by batch update while the others reserve for newcomers, up to 150 rounds per table
-             ("swap", "swap", 24 if q else 600, 12 if q else 100, None)]
+             ("swap", "swap", 24 if q else 600, 12 if q else 100, None),
+             # membership calls released together with the signals that open the next hand (the hand is opened from a copy of the table)
+             ("open", "open", 16 if q else 400, 8 if q else 100, None)]
     return standard_flow(
         res, hx="conc", corr="Conc_run", n=0, replay=replay, plans=None if replay else plans,
         signature=lambda c, s: None, describe=describe, stats=stats, unit=unit,
         rule="bursts released together from a barrier on the real engine: (members) PlayerReserve incl. re-buys, duplicate reservations and explicit "
-             "conflicting seats / PlayersLeave / UpdateTablePlayers; (seats) RandomAssignSeats / AssignSeats on conflicting seats / RemoveSeats on a bare "
+             "conflicting seats / PlayersLeave / UpdateTablePlayers, also released together with the signals that open the next hand; (seats) RandomAssignSeats / AssignSeats on conflicting seats / RemoveSeats on a bare "
              "seat manager; (actions) at every turn of real hands every participant submits an action at once, the player to act twice, against a backend "
              "that may take 1-3 ms per call; bursts of 2..6 callers are explained by trying every order on the model, larger ones (up to 47) by a search over "
              "the accepted operations (refused ones are placed where the model refuses them) when at most 7 were accepted, else by accounting; "
